@@ -15,7 +15,7 @@ ASSUMPTIONS = ["bit-identical means equal pickled byte images of every field of 
                "TSan/helgrind are not used (CPython is not instrumented); schedules are those produced by the interpreter with switch interval 1e-6 and injected sleep(0) yields at LINE events of coneprog/cvxprog/misc"]
 ENTRIES = ["conelp", "coneqp", "lp", "qp", "socp", "sdp", "cpl", "cp", "gp", "op"]
 REQUIRED_COUNTERS = ["iso." + e for e in ENTRIES] + ["immutability-checks", "global-state-checks", "options-precedence-checks",
-                                                      "validation-rejections", "budget-checks", "monotone-tolerance-checks",
+                                                      "validation-rejections", "budget-checks", "monotone-tolerance-checks", "split-tolerance-checks", "split-tolerance-checks.dinf.relative-only", "iso.rank-deficient-A",
                                                       "hist.calls-vs-fresh-process", "threads.runs", "threads.results-compared",
                                                       "threads.context-switches-in-solver", "threads.homogeneous-runs", "iso.empty-options-dict", "refinement-checks"]
 
@@ -64,7 +64,8 @@ def run(ctx):
 
     def module_state():
         st = {}
-        for m in (coneprog, cvxprog, misc, solvers, modeling, cvxopt):
+        import cvxopt.cholmod, cvxopt.umfpack, cvxopt.amd, cvxopt.glpk, cvxopt.dsdp
+        for m in (coneprog, cvxprog, misc, solvers, modeling, cvxopt, cvxopt.cholmod, cvxopt.umfpack, cvxopt.amd, cvxopt.glpk, cvxopt.dsdp):
             for k, v in vars(m).items():
                 if k.startswith("__"):
                     continue
@@ -88,6 +89,11 @@ def run(ctx):
                 self.pr = None
                 while self.pr is None:
                     self.pr = sc.gen_instance(rng, e, rng.choice(["feasible", "feasible", "pinf", "dinf"]))
+                if e in ("lp", "conelp") and self.pr.p >= 1 and rng.random() < 0.12:
+                    # rank-deficient equality constraints: the solver raises the documented ValueError out of a failed KKT
+                    # factorization - an error path that must leave arguments and global state alone like any other
+                    self.pr.A = np.vstack([self.pr.A, self.pr.A[:1]]); self.pr.b = np.concatenate([self.pr.b, self.pr.b[:1]])
+                    self.rank_deficient = True
                 self.args = sr.cvx_args(self.pr, rng, sparseG=rng.random() < 0.3) if e == "conelp" else \
                     sr.wrapper_args(e, self.pr, rng, sparse=rng.random() < 0.3)
                 if rng.random() < 0.3 and self.pr.kind == "feasible":
@@ -218,6 +224,7 @@ def run(ctx):
         entry = ENTRIES[(c.k + ctx.worker) % len(ENTRIES)]
         seed = rng.randrange(1 << 30)
         call = Call(entry, seed)
+        if getattr(call, "rank_deficient", False): ctx.count("iso.rank-deficient-A")
         c.desc.update({"monitor": "iso", "entry": entry, "callseed": seed})
         ctx.count("iso." + entry)
         opts = rand_options(rng)
@@ -319,6 +326,28 @@ def run(ctx):
                           "tolerances 1e-4 -> %d iterations, 1e-8 -> %d iterations" % (s1["iterations"], s2["iterations"]))
             except ValueError:
                 pass
+            # --- the given tolerances are the ones applied, each to its own test: feastol to the residuals (also of the
+            # infeasibility certificates), abstol / reltol to the gap only.  The certificate oracle (C01-C03) is run with
+            # the options of the call, for tolerance sets whose members differ by orders of magnitude.
+            if entry == "conelp" or call.pr.kind == "feasible":
+                from vlib.oracle import certs as certs_
+                for o_split, lab in (({"feastol": 1e-9, "abstol": 1e-2, "reltol": 1e-2}, "gap-loose"),
+                                     ({"feastol": 1e-4, "abstol": 1e-10, "reltol": 1e-10}, "gap-tight"),
+                                     ({"feastol": 1e-7, "abstol": -1.0, "reltol": 1e-6}, "relative-only")):
+                    oo = dict(QUIET); oo.update(o_split)
+                    try:
+                        s_d = call.run(options=dict(QUIET))
+                        s_t = call.run(options=oo)
+                    except (ValueError, ArithmeticError):
+                        continue
+                    ctx.count("split-tolerance-checks")
+                    ctx.count("split-tolerance-checks.%s.%s" % (call.pr.kind, lab))
+                    if s_t["status"] in ("optimal", "primal infeasible", "dual infeasible"):
+                        certs_.judge_cone_result(c, ctx, call.pr, sr.normalise(entry, s_t, call.pr.dims), oo, entry + ":" + lab, qp=(entry == "coneqp"))
+                    if s_d["status"] in ("primal infeasible", "dual infeasible") and lab != "gap-loose" and entry == "conelp":
+                        # the acceptance of a certificate depends on feastol only
+                        c.require(s_t["status"] == s_d["status"], entry + ":certificate-acceptance-depends-on-gap-tolerances",
+                                  "status %r with default options, %r with %r" % (s_d["status"], s_t["status"], o_split))
         elif entry in ("cpl", "cp"):
             mi = rng.choice([1, 2, 4, 7])
             n0 = len(call.Flog)
